@@ -50,3 +50,17 @@ Proof.
   - pose proof (parse_host_key c s) as H. rewrite Hp in H. cbn [post] in H. destruct k as [m ip].
     destruct (H m ip E) as [(H4 & _)|[(H6 & _)|(Hid & _)]]; auto.
 Qed.
+
+(* the zero-allocation clause at every log level; at level error even the online transition of an offline host is free *)
+Theorem zero_alloc_every_level lvl c st s f :
+  parse c s = Ok f ->
+  (forall k, f_host f = Some k -> st k = TrackedOnline \/ (lvl = LError /\ st k = TrackedOffline)) ->
+  parse_allocs_lvl lvl c st s = Ok 0%nat.
+Proof.
+  intros Hp H. unfold parse_allocs_lvl. rewrite Hp. destruct (f_host f) as [k|]; [|reflexivity].
+  destruct (H k eq_refl) as [E|[-> E]]; rewrite E; [destruct lvl|]; reflexivity.
+Qed.
+
+(* the log statements on Parse's path: none is guarded by IsDebug, the two of the online transition by IsInfo *)
+Lemma logs_guards : map (fun r => snd (fst r)) parse_logs = ["always"; "info"; "info"].
+Proof. reflexivity. Qed.
